@@ -503,6 +503,150 @@ example :
     runPath 5 3 σ = [10, 10, 10, 20] ∧ traces (runEnd 5 3 σ).out = [20, 10, 10, 10] := by
   decide +kernel
 
+/-! ### the property as worded: trace records with immediate repeats collapsed -/
+
+/-- remove immediate repeats: `[10,10,20,20,10] ↦ [10,20,10]` -/
+def collapse : List Nat → List Nat
+  | [] => []
+  | a :: l => if l.head? = some a then collapse l else a :: collapse l
+
+example : collapse [10, 10, 20, 20, 10] = [10, 20, 10] := by decide
+
+theorem collapse_nil : collapse [] = [] := rfl
+
+theorem collapse_cons (a : Nat) (l : List Nat) :
+    collapse (a :: l) = if l.head? = some a then collapse l else a :: collapse l := rfl
+
+theorem head?_collapse (l : List Nat) : (collapse l).head? = l.head? := by
+  induction l with
+  | nil => rfl
+  | cons a l ih =>
+    rw [collapse_cons]
+    by_cases h : l.head? = some a
+    · rw [if_pos h, ih, h]; rfl
+    · rw [if_neg h]; rfl
+
+/-- `collapse (a :: l)` only depends on `collapse l` -/
+theorem collapse_cons_congr (a : Nat) {l l' : List Nat} (h : collapse l = collapse l') :
+    collapse (a :: l) = collapse (a :: l') := by
+  have hh : l.head? = l'.head? := by rw [← head?_collapse l, h, head?_collapse]
+  rw [collapse_cons, collapse_cons, hh, h]
+
+theorem collapse_append_congr (x : List Nat) {l l' : List Nat} (h : collapse l = collapse l') :
+    collapse (x ++ l) = collapse (x ++ l') := by
+  induction x with
+  | nil => exact h
+  | cons a x ih => exact collapse_cons_congr a ih
+
+theorem collapse_replicate_append (c a : Nat) (l : List Nat) :
+    collapse (List.replicate (c + 1) a ++ l) = collapse (a :: l) := by
+  induction c with
+  | zero => rfl
+  | succ c ih =>
+    have : List.replicate (c + 1 + 1) a ++ l = a :: (List.replicate (c + 1) a ++ l) := rfl
+    rw [this, collapse_cons]
+    have hh : (List.replicate (c + 1) a ++ l).head? = some a := rfl
+    rw [if_pos hh, ih]
+
+theorem expand_nil (ks : List Nat) : expand [] ks = [] := by
+  cases ks <;> rfl
+
+/-- **collapse_expand**: repeating each line of a path a positive number of times
+    is invisible once immediate repeats are collapsed. -/
+theorem collapse_expand (p ks : List Nat) (hks : ∀ c ∈ ks, 1 ≤ c) (hlen : ks.length = p.length) :
+    collapse (expand p ks) = collapse p := by
+  induction p generalizing ks with
+  | nil => rw [expand_nil]
+  | cons ln p ih =>
+    cases ks with
+    | nil => cases hlen
+    | cons c ks =>
+      have hc : 1 ≤ c := hks c (List.mem_cons_self ..)
+      obtain ⟨c', rfl⟩ : ∃ c', c = c' + 1 := ⟨c - 1, by omega⟩
+      show collapse (List.replicate (c' + 1) ln ++ expand p ks) = _
+      rw [collapse_replicate_append]
+      exact collapse_cons_congr ln
+        (ih ks (fun x hx => hks x (List.mem_cons_of_mem _ hx)) (by simpa using hlen))
+
+theorem collapse_snoc (l : List Nat) (a : Nat) :
+    collapse (l ++ [a]) = if l.getLast? = some a then collapse l else collapse l ++ [a] := by
+  induction l with
+  | nil => rfl
+  | cons b l ih =>
+    cases l with
+    | nil =>
+      show collapse [b, a] = if some b = some a then collapse [b] else collapse [b] ++ [a]
+      by_cases h : a = b
+      · subst h; rfl
+      · have h1 : ¬ (some b = some a) := fun hh => h (Option.some.inj hh).symm
+        have h2 : ¬ ([a].head? = some b) := fun hh => h (Option.some.inj hh)
+        rw [if_neg h1, collapse_cons, if_neg h2]; rfl
+    | cons c l =>
+      generalize hm : c :: l = m at ih ⊢
+      have hl : (b :: m).getLast? = m.getLast? := by rw [← hm]; rfl
+      have hh : (m ++ [a]).head? = m.head? := by rw [← hm]; rfl
+      rw [List.cons_append, collapse_cons, hh, ih, hl, collapse_cons b m]
+      by_cases h1 : m.head? = some b <;> by_cases h2 : m.getLast? = some a
+      · simp only [if_pos h1, if_pos h2]
+      · simp only [if_pos h1, if_neg h2]
+      · simp only [if_neg h1, if_pos h2]
+      · simp only [if_neg h1, if_neg h2]; rfl
+
+/-- **collapse_reverse** -/
+theorem collapse_reverse (l : List Nat) : collapse l.reverse = (collapse l).reverse := by
+  induction l with
+  | nil => rfl
+  | cons a l ih =>
+    rw [List.reverse_cons, collapse_snoc, List.getLast?_reverse, collapse_cons, ih]
+    by_cases h : l.head? = some a
+    · rw [if_pos h, if_pos h]
+    · rw [if_neg h, if_neg h, List.reverse_cons]
+
+/-- **trace_collapsed_is_path_from** (arbitrary initial queue).  Read oldest first,
+    with immediate repeats collapsed, the trace records after `k` turns are the
+    earlier trace records followed by the path. -/
+theorem trace_collapsed_is_path_from (fuel k : Nat) (σ : St F) (ht : σ.tracing = true) :
+    collapse (traces (turns fuel k σ).out).reverse =
+      collapse ((traces σ.out).reverse ++ path fuel k σ) := by
+  obtain ⟨ks, hlen, hks, htr⟩ := trace_is_path_partial fuel k σ ht
+  rw [htr, List.reverse_append, List.reverse_reverse]
+  exact collapse_append_congr _ (collapse_expand _ ks hks hlen)
+
+/-- **trace_collapsed_is_path.**  The trace records, read in order (oldest first)
+    with immediate repeats collapsed, name exactly the sequence of numbered lines
+    execution passes through (the path with ITS immediate repeats collapsed: two
+    consecutive statements on one line are one visit of that line). -/
+theorem trace_collapsed_is_path (fuel k : Nat) (σ : St F) (ht : σ.tracing = true) (h0 : traces σ.out = []) :
+    collapse (traces (turns fuel k σ).out).reverse = collapse (path fuel k σ) := by
+  rw [trace_collapsed_is_path_from fuel k σ ht, h0]; rfl
+
+/-- RUN followed by `k` turns, arbitrary initial queue. -/
+theorem run_trace_collapsed_is_path_from (fuel k : Nat) (σ : St F) (hs : σ.state = .idle) (ht : σ.tracing = true) :
+    collapse (traces (runEnd fuel k σ).out).reverse =
+      collapse ((traces σ.out).reverse ++ runPath fuel k σ) := by
+  obtain ⟨ks, hlen, hks, htr⟩ := run_trace_is_path_partial fuel k σ hs ht
+  rw [htr, List.reverse_append, List.reverse_reverse]
+  exact collapse_append_congr _ (collapse_expand _ ks hks hlen)
+
+/-- **run_trace_collapsed_is_path.**  RUN entered in an idle interpreter with
+    tracing on whose queue holds no trace record (e.g. the output was taken
+    before RUN: `σ.out = []`), followed by `k` turns. -/
+theorem run_trace_collapsed_is_path (fuel k : Nat) (σ : St F) (hs : σ.state = .idle) (ht : σ.tracing = true)
+    (h0 : traces σ.out = []) :
+    collapse (traces (runEnd fuel k σ).out).reverse = collapse (runPath fuel k σ) := by
+  rw [run_trace_collapsed_is_path_from fuel k σ hs ht, h0]; rfl
+
+/-- … in particular right after `take_output`. -/
+theorem run_trace_collapsed_is_path_taken (fuel k : Nat) (σ : St F) (hs : σ.state = .idle) (ht : σ.tracing = true) :
+    collapse (traces (runEnd fuel k (takeOutput σ).2).out).reverse = collapse (runPath fuel k (takeOutput σ).2) :=
+  run_trace_collapsed_is_path fuel k _ hs ht rfl
+
+/-- The IF program of `trace_is_path_false`, collapsed: records `[10, 10]`, path `[10]`. -/
+example :
+    let σ : St Unit := { tracing := true, lines := { map := [(10, [.kw .If, .str ['A'], .kw .Then, .kw .Print])], sorted := [10] } }
+    collapse (traces (runEnd 5 0 σ).out).reverse = [10] ∧ collapse (runPath 5 0 σ) = [10] := by
+  decide +kernel
+
 /-! ### 3. the scalar-variable warning -/
 
 /-- the text of the warning -/
